@@ -682,3 +682,26 @@ func (g *IG) reachPS(starts []int, stop func(ssa.Instruction) bool, edgeOK func(
 	}
 	return reached
 }
+
+// naturalLoop returns the blocks of the natural loop(s) with the given header (header included).
+func naturalLoop(h *ssa.BasicBlock) map[*ssa.BasicBlock]bool {
+	in := map[*ssa.BasicBlock]bool{h: true}
+	var stack []*ssa.BasicBlock
+	for _, p := range h.Preds {
+		if h.Dominates(p) && !in[p] {
+			in[p] = true
+			stack = append(stack, p)
+		}
+	}
+	for len(stack) > 0 {
+		b := stack[len(stack)-1]
+		stack = stack[:len(stack)-1]
+		for _, p := range b.Preds {
+			if !in[p] && h.Dominates(p) {
+				in[p] = true
+				stack = append(stack, p)
+			}
+		}
+	}
+	return in
+}
